@@ -73,7 +73,15 @@ SPECS = {
         + derived(HEM, "HEMParameters", "hem", HEM_ARGS, ["_xi"])
         + derived(VG, "VGParameters", "vg", VG_ARGS, ["_c", "_lambda_p", "_lambda_m"])
         + derived(CGMY, "CGMYParameters", "cgmy", CGMY_ARGS, ["_CGammamY", "_MpowerY", "_GpowerY"])
-        + derived(BSF, "BlackScholesParameters", "bs", [("sigma", "Q")], ["variance"]),
+        + derived(BSF, "BlackScholesParameters", "bs", [("sigma", "Q")], ["variance"])
+        # wave 8b (audit 5b, top-10 #10): the class-level moment guards of the exponential models' constructors, generated from the SAME
+        # `if <test>: raise ValueError` lines as GenC18Cos.hem_exp_raises / cgmy_exp_raises (there over R, here over Q).  Proofs/C20_Guards.v
+        # instantiates the heap program's model_ok with them.  (The generic guard of ExponentialOfLevyModel.__init__ tests the complex float
+        # levy_exponent(-1j): it stays a class component `generic`, fed from the implementation.)
+        + [{"kind": "raise_test", "file": HEM, "py": "ExponentialOfHEMModel.__init__", "coq": "hem_exp_raises_q",
+            "args": [("eta1", "Q")], "ret": "bool", "attrs": {"parameters.eta1": "eta1"}},
+           {"kind": "raise_test", "file": CGMY, "py": "ExponentialOfCGMYModel.__init__", "coq": "cgmy_exp_raises_q",
+            "args": [("m", "Q"), ("y", "Q")], "ret": "bool", "attrs": {"parameters.m": "m", "parameters.y": "y"}}],
     },
 }
 
@@ -98,6 +106,7 @@ SPECS["GenC20Calib"] = {
         # bodies of calibrate_model_parameter (+ inner calibration_fun), calibrate_model_parameter_to_atm_call, run_default_calibration
         # as a program over the heap operations of Model/ParamsHeap.v: gen_calibration_fun, gen_calibrate_model_parameter,
         # gen_run_default_calibration
-        {"emitter": "py2coq_c20:heap_program", "py": "calibrate_model_parameter"},
+        {"emitter": "py2coq_c20:heap_program", "py": "calibrate_model_parameter",
+         "defaults_of": {"calibrate_model_parameter_to_atm_call": {"bs_sigma": "0.1"}, "run_default_calibration": {"bs_sigma": "0.1"}}},
     ],
 }
